@@ -8,6 +8,7 @@ import (
 	"time"
 
 	"github.com/skycoin/skycoin/src/cipher"
+	"github.com/skycoin/skycoin/src/cipher/encoder"
 	"github.com/skycoin/skycoin/src/daemon"
 	"github.com/skycoin/skycoin/src/daemon/gnet"
 
@@ -74,6 +75,18 @@ func runNetwork(c *sim.Ctx) {
 			c.Count("mode.flood")
 		}
 	}
+	if c.Property == "C23" && !small && t.Chance("long-chain", 1, 12) {
+		// a publisher far ahead of its peers and an operator who raised the response cap above the number of blocks
+		// one message may carry (128): replies must still stop at 128
+		r.ns.knobs.maxGetBlocksResp = []uint64{200, 129, 1000}[t.Int("long-resp-cap", 3)]
+		r.ns.knobs.getBlocksRequestCnt = []uint64{200, 130, 1000}[t.Int("long-req-cnt", 3)]
+		r.ns.knobs.maxOutgoingMsgLen = 1 << 20
+		c.Knobs["max_out_len"] = int64(r.ns.knobs.maxOutgoingMsgLen)
+		c.Knobs["max_getblocks_resp"] = int64(r.ns.knobs.maxGetBlocksResp)
+		r.longChain(130 + t.Int("long-chain-extra", 40))
+		c.Count("mode.long_chain")
+		c.Notef("long chain: publisher head %d", len(r.w.nodes[0].m.Chain)-1)
+	}
 	defer r.ns.shutdown()
 	for i, n := range w.nodes {
 		r.nodes = append(r.nodes, r.ns.addDaemon(n, fmt.Sprintf("10.0.0.%d", i+1), 6000, uint32(0x100+i)))
@@ -83,6 +96,9 @@ func runNetwork(c *sim.Ctx) {
 		if r.prop == "C23" && errors.Is(err, gnet.ErrMsgExceedsMaxLen) {
 			what := "?"
 			c.Violate("built-message-does-not-fit", "exceeds-max-len", "node %d built a message for %s that its own send step refuses as longer than the configured maximum (%d): %v [%s]", n.id, l.remote, r.ns.knobs.maxOutgoingMsgLen, err, what)
+		} else if r.prop == "C23" && (errors.Is(err, encoder.ErrMaxLenExceeded) || strings.Contains(err.Error(), "exceeds")) {
+			// the simulated connection itself never fails a write: what remains is a message the node built and cannot encode
+			c.Violate("built-message-cannot-be-encoded", "item-cap", "node %d built a message for %s that cannot be encoded (more items than the message type allows?): %v", n.id, l.remote, err)
 		}
 	}
 	// topology: every follower dials the publisher; with two followers the second may dial the first instead
@@ -332,6 +348,57 @@ func (r *netRun) prefund(k int) {
 			}
 			f.m.Apply(mb)
 		}
+		r.c.Count("block.created")
+	}
+}
+
+// longChain: the publisher alone makes k one-transaction blocks before the network exists.
+func (r *netRun) longChain(k int) {
+	pub := r.w.nodes[0]
+	burn := uint64(pub.m.Cfg.Unconfirmed.BurnFactor)
+	if cb := uint64(pub.m.Cfg.CreateBlock.BurnFactor); cb > burn {
+		burn = cb
+	}
+	for i := 0; i < k; i++ {
+		// the owned output with the most hours is moved on, paying exactly the required fee
+		var best model.Hash
+		var bh uint64
+		for _, id := range r.w.ownedUnspents(pub.m) {
+			u := pub.m.Unspent[id]
+			if u.Addr == r.w.locked.m || u.Coins < 1000000 || u.Coins%1000000 != 0 {
+				continue
+			}
+			if h, ov, inter := model.AccruedHours(u, pub.m.Head().Head.Time); !ov && !inter && h.IsUint64() && h.Uint64() > bh {
+				best, bh = id, h.Uint64()
+			}
+		}
+		if bh < 2 {
+			return
+		}
+		tx, ok := r.w.mkSpendTo(pub.m, []model.Hash{best}, bh-(bh+burn-1)/burn, r.w.clients[i%len(r.w.clients)].m)
+		if !ok {
+			return
+		}
+		exp, _ := pub.m.InjectForeign(&tx, pub.m.Cfg.Unconfirmed)
+		_, _, err := pub.v.InjectForeignTransaction(cTxn(&tx))
+		if (err == nil) != (exp.Class == model.OK || exp.Class == model.Soft) {
+			r.desync = true
+			return
+		}
+		r.honestTxn[tx.Hash()] = true
+		time.Sleep(time.Duration(1+r.c.T.Int("long-gap", 5)) * time.Second)
+		sb, err := pub.v.CreateAndExecuteBlock()
+		if err != nil {
+			r.c.Notef("long chain stopped at block %d: %v", i, err)
+			return
+		}
+		mb := mBlock(&sb)
+		if v := pub.m.CheckBlock(&mb); v.V != model.Accept {
+			r.desync = true
+			return
+		}
+		pub.m.Apply(mb)
+		r.pubBlocks[mb.Head.BkSeq] = mb
 		r.c.Count("block.created")
 	}
 }
@@ -698,6 +765,9 @@ func (r *netRun) monitor(from *netNode, l *link, f []byte) {
 		}
 		if from.id != 0 && len(from.m.Chain) != int(mustHead(from)+1) {
 			return // the follower's shadow model is not in step (blocks arrived outside the model): skip
+		}
+		if len(m.Blocks) >= 128 {
+			c.Count("probe.givb_with_128_or_more_blocks")
 		}
 		if len(m.Blocks) != fit {
 			kind := "fewer"
